@@ -859,7 +859,7 @@ pub fn eval_solve<VS: HSet>(r: &SolveReq<VS>) -> SolveEval<VS> {
                     }
                 }
                 // C14: from the partial-solution snapshot taken just before the prioritize calls
-                if let Some(ps) = &last_snap_ps {
+                if let (Some(ps), true) = (&last_snap_ps, VS::DISPLAY_INJECTIVE) {
                     let mut my_prio = None;
                     let mut others: Vec<(String, String)> = vec![];
                     for line in ps.split(" ## ").skip(1) {
@@ -985,7 +985,7 @@ pub fn eval_solve<VS: HSet>(r: &SolveReq<VS>) -> SolveEval<VS> {
                 failures.push(("C03", e));
             }
             // C03: shared ids, by independent reconstruction from the store snapshot
-            if let (Some(snap), Some(tid)) = (&store_snap, terminal_id) {
+            if let (Some(snap), Some(tid), true) = (&store_snap, terminal_id, VS::DISPLAY_INJECTIVE) {
                 match parse_store::<VS>(snap) {
                     None => failures.push(("C03", "store snapshot not parseable".into())),
                     Some(entries) => {
@@ -1066,7 +1066,10 @@ pub fn eval_solve<VS: HSet>(r: &SolveReq<VS>) -> SolveEval<VS> {
     }
     // C06: every stored incompatibility is true of all solutions
     let mut conflicts = 0;
-    if let Some(snap) = &store_snap {
+    if let (Some(snap), false) = (&store_snap, VS::DISPLAY_INJECTIVE) {
+        conflicts = snap.matches(";derived(").count();
+    }
+    if let (Some(snap), true) = (&store_snap, VS::DISPLAY_INJECTIVE) {
         match parse_store::<VS>(snap) {
             None => failures.push(("C06", "store snapshot not parseable".into())),
             Some(entries) => {
